@@ -46,7 +46,8 @@ func (s *Stats) Record(c *Case, nontrivial bool, labels map[string]bool) {
 			s.NonTrivial[h] = true
 			// keep a few non-trivial samples spread over the run
 			if len(s.Samples) < 4 && len(s.NonTrivial)%s.sampleEvery == 0 {
-				s.Samples = append(s.Samples, json.RawMessage(c.JSON()))
+				b, _ := json.Marshal(map[string]interface{}{"short": c.Short(), "ir": json.RawMessage(c.JSON())})
+				s.Samples = append(s.Samples, b)
 				s.sampleEvery *= 7
 			}
 		}
